@@ -15,14 +15,14 @@ PROPS = ["C%02d" % i for i in range(1, 21)]
 # Rules of other properties that each property also relies on: a change that breaks the property through
 # one of them must be reported by *this* property's check too (not only by the owner's).
 SHARED = {
-    "C01": {"c08": ["R8.1"], "c07": ["R7.2", "R7.3", "R7.8"], "c16": ["R16.2"], "c03": ["R3.3"], "c12": ["R12.3"]},
+    "C01": {"c08": ["R8.1"], "c07": ["R7.2", "R7.3", "R7.8"], "c16": ["R16.2"], "c03": ["R3.3"], "c12": ["R12.3", "R12.7"]},
     "C02": {"c06": ["R6.1", "R6.2"], "c07": ["R7.2"], "c11": ["R11.5"], "c01": ["R1.5", "R1.6", "R1.3"], "c05": ["R5.3"]},
     "C03": {"c01": ["R1.1", "R1.2"], "c13": ["R13.2"], "c07": ["R7.5", "R7.8", "R7.7"], "c09": ["R9.4"]},
     "C04": {"c01": ["R1.9", "R1.2"], "c07": ["R7.2", "R7.3"], "c16": ["R16.2", "R16.4"], "c02": ["R2.1"]},
     "C05": {"c07": ["R7.1"], "c12": ["R12.2"], "c01": ["R1.3", "R1.4"], "c06": ["R6.4"], "c02": ["R2.4"], "c16": ["R16.2", "R16.3", "R16.5"]},
-    "C06": {"c02": ["R2.1", "R2.4", "R2.5"], "c05": ["R5.1", "R5.2", "R5.3", "R5.5"], "c01": ["R1.6"], "c08": ["R8.1"], "c16": ["R16.3"]},
+    "C06": {"c02": ["R2.1", "R2.4", "R2.5"], "c05": ["R5.1", "R5.2", "R5.3", "R5.5"], "c01": ["R1.6"], "c08": ["R8.1"], "c16": ["R16.3"], "c12": ["R12.7"]},
     "C07": {"c01": ["R1.2", "R1.6"], "c03": ["R3.2", "R3.3"], "c12": ["R12.2"], "c14": ["R14.1"]},
-    "C08": {"c16": ["R16.2", "R16.3", "R16.5"], "c03": ["R3.5", "R3.2"], "c07": ["R7.4"], "c12": ["R12.2"], "c13": ["R13.2"]},
+    "C08": {"c16": ["R16.2", "R16.3", "R16.5"], "c03": ["R3.5", "R3.2"], "c07": ["R7.4"], "c12": ["R12.2", "R12.7"], "c13": ["R13.2"]},
     "C09": {"c16": ["R16.2", "R16.3", "R16.4", "R16.5"], "c03": ["R3.2", "R3.5"], "c13": ["R13.3"], "c08": ["R8.1"], "c01": ["R1.9"]},
     "C10": {"c17": ["R17.1"], "c08": ["R8.1"], "c04": ["R4.2"], "c12": ["R12.2"], "c01": ["R1.2"], "c03": ["R3.3"], "c16": ["R16.1", "R16.2", "R16.3"]},
     "C11": {"c02": ["R2.5"], "c03": ["R3.1"], "c01": ["R1.10", "R1.2"]},
